@@ -14,7 +14,7 @@ Definition EInv (s : store) : Prop :=
 
 Lemma EInv_ext s s' : EInv s -> ext s s' -> EInv s'.
 Proof.
-  intros [C E] (_ & _ & _ & _ & I & _ & P). split; [rewrite P; exact C|].
+  intros [C E] (_ & _ & _ & _ & I & _ & P & _ & _). split; [rewrite P; exact C|].
   intros e' H. destruct (I e' H) as (e & He & _ & X & W). rewrite P, <- X, <- W. apply E, He.
 Qed.
 
